@@ -93,8 +93,12 @@ func runC07(c *Ctx) {
 		s.FileId(0, 0, 4)
 		s.Def(1, 0, 27, []FieldDef{{254, 2, 0x84}, {0, 8, 7}}, nil)
 		s.Data(1, []byte{1, 0, 'a', 0xFF, 0xFE, 'b', 0, 0, 0, 0})
-		inputs = append(inputs, s.Bytes())
-		notes = append(notes, "string that is not valid UTF-8")
+		// first, and again in the middle: the Encodes that follow a failed one must be unaffected
+		inputs = append([][]byte{s.Bytes()}, inputs...)
+		notes = append([]string{"string that is not valid UTF-8"}, notes...)
+		mid := len(inputs) / 2
+		inputs = append(inputs[:mid], append([][]byte{s.Bytes()}, inputs[mid:]...)...)
+		notes = append(notes[:mid], append([]string{"string that is not valid UTF-8"}, notes[mid:]...)...)
 	}
 	var calls []*Call
 	id := 0
@@ -144,7 +148,8 @@ func runC07(c *Ctx) {
 				// fixpoint: F1 = F2 (content: header sizes and CRCs follow the byte order used)
 				a, b := contentOnly(prev), contentOnly(dn.Ret.Files[0])
 				if a != b {
-					c.report("not-a-fixpoint:"+firstDiffSlot(prev, dn.Ret.Files[0]), fmt.Sprintf("decoding the second re-encoding differs from the first (%s)", notes[i]),
+					what := diffSig(p, map[string]interface{}{"err": 0, "files": []*FileProj{prev}}, map[string]interface{}{"err": 0, "files": []*FileProj{dn.Ret.Files[0]}})
+					c.report("not-a-fixpoint:"+what, fmt.Sprintf("decoding the second re-encoding differs from the first in %s (%s)", what, notes[i]),
 						map[string]interface{}{"input": toInts(x), "first": prev, "second": dn.Ret.Files[0]})
 				}
 			}
